@@ -329,7 +329,7 @@ func checkC12(c *Ctx) {
 			if edited && string(res.Steps[st[2]].Reply) == "null" {
 				// for three seconds after a didChange the server answers no highlight request at all (a deliberate
 				// throttle, lsp_server.go isCanHighlight): R3 has nothing to relate then
-				row.Hl = nil
+				row.Hl = []tpos{}
 				for _, x := range row.Refs {
 					if x.F == row.P.F {
 						row.Hl = append(row.Hl, x)
@@ -365,7 +365,7 @@ func checkC12(c *Ctx) {
 			c.Rep.Fatal(err.Error())
 			return
 		}
-		if projReplay(c, raw, "highlight hover") {
+		if projReplay(c, raw, "hover") {
 			return
 		}
 		jb := c12Build(1, raw)
@@ -391,7 +391,7 @@ func checkC12(c *Ctx) {
 	flush()
 	_ = okAll
 	// Project.tla: workspaces analysed as a project (entry file + what it requires), both modes
-	projectRuns(c, p, 0, "highlight hover")
+	projectRuns(c, p, 0, "hover")
 	c.poolStats(p)
 	if surveyMode {
 		sv.dump()
